@@ -325,6 +325,79 @@ def judge_case(ctx, res, pid="C08"):
         ctx.nontriv({"schema": schema, "ops": wit["ops"]})
 
 
+def scale_case(cid, rng, schema, n_tracks=160):
+    """Many tracks in two crates: bulk adds in scrambled order, removal of every other entry, removal of tracks
+    from the database, re-adds; judged once at the end against sets (and insertion order on 2.x)."""
+    ops = [{"op": "create_temporary", "schema": schema}]
+    for i in range(n_tracks):
+        ops.append({"op": "create_track", "as": "t%d" % i, "snap": {"relative_path": FO.hx("bulk/track %04d.mp3" % i)}})
+    ops.append({"op": "create_root_crate", "name": FO.hx("A"), "as": "cA"})
+    ops.append({"op": "create_root_crate", "name": FO.hx("B"), "as": "cB"})
+    A, B = [], []
+    order = list(range(n_tracks))
+    rng.shuffle(order)
+    for i in order:
+        ops.append({"op": "add_track" if i % 3 else "add_track_via_id", "c": "cA", "t": "t%d" % i})
+        A.append(i)
+        if i % 2 == 0:
+            ops.append({"op": "add_track", "c": "cB", "t": "t%d" % i})
+            B.append(i)
+    for i in list(A)[::2]:
+        ops.append({"op": "remove_track_from", "c": "cA", "t": "t%d" % i})
+        A.remove(i)
+    gone = rng.sample(range(n_tracks), 15)
+    for i in gone:
+        ops.append({"op": "remove_track", "t": "t%d" % i})
+        if i in A:
+            A.remove(i)
+        if i in B:
+            B.remove(i)
+    back = [i for i in order[:20] if i not in gone and i not in A]
+    for i in back:
+        ops.append({"op": "add_track", "c": "cA", "t": "t%d" % i})
+        A.append(i)
+    tail = len(ops)
+    ops += [{"op": "crate_query", "c": "cA", "q": "tracks"}, {"op": "crate_query", "c": "cB", "q": "tracks"}, {"op": "db_query", "q": "tracks"}]
+    return {"id": cid, "schema": schema, "ops": ops, "_scale": {"A": A, "B": B, "gone": gone, "n": n_tracks, "tail": tail}}
+
+
+def judge_scale(ctx, res):
+    case = res.case
+    schema = case["schema"]
+    fam = family(schema)
+    sc = case["_scale"]
+    ctx.count()
+    ctx.bump("scale_cases")
+    wit = {"schema": schema, "scale": {"tracks": sc["n"]}, "ops": case["ops"][-40:]}
+    if res.crash or len(res.events) < len(case["ops"]):
+        ctx.violation(f"op-did-not-complete {fam} scale", f"{schema}: the bulk membership case did not complete", wit)
+        return
+    evs = res.events
+    ids = {}
+    for k, op in enumerate(case["ops"]):
+        if op["op"] == "create_track" and "ret" in evs[k]:
+            ids[int(op["as"][1:])] = evs[k]["ret"]
+        if "exc" in evs[k] and op["op"] not in ("crate_query", "db_query"):
+            ctx.violation(f"bulk-op-throws {fam} {op['op']}", f"{schema}: {op['op']} threw {evs[k]['exc']['type']} in the bulk case", wit)
+            return
+    gotA, gotB, live = evs[sc["tail"]].get("ret"), evs[sc["tail"] + 1].get("ret"), evs[sc["tail"] + 2].get("ret")
+    wantA = [ids[i] for i in sc["A"]]
+    wantB = [ids[i] for i in sc["B"]]
+    for name, got, want in (("A", gotA, wantA), ("B", gotB, wantB)):
+        if got is None:
+            ctx.violation(f"tracks-throws {fam} scale", f"{schema}: tracks() throws in the bulk case", wit)
+            continue
+        if len(set(got)) != len(got):
+            ctx.violation(f"tracks-duplicate {fam} scale", f"{schema}: crate {name} lists a track twice among {len(got)}", wit)
+        elif set(got) != set(want):
+            extra, missing = sorted(set(got) - set(want))[:5], sorted(set(want) - set(got))[:5]
+            ctx.violation(f"membership-mismatch {fam} scale", f"{schema}: crate {name} of {len(want)} tracks: unexpected {extra}, missing {missing}", wit)
+        elif is_v2(schema) and list(got) != want:
+            ctx.violation(f"entry-order {fam} scale", f"{schema}: crate {name} does not list its {len(want)} entries in insertion order", wit)
+    if live is not None and set(live) != {ids[i] for i in range(sc["n"]) if i not in sc["gone"]}:
+        ctx.violation(f"track-listing-mismatch {fam} scale", f"{schema}: tracks() has {len(live)} entries", wit)
+
+
 def run(ctx):
     per = 40 if ctx.tier == "quick" else 1500
     cases = []
@@ -339,7 +412,10 @@ def run(ctx):
     ctx.assumptions += ["order of listings is not judged here (C09)",
                         "containing_crates() is judged on 1.x only; 2.x reports 'not yet implemented' (\"where supported\")",
                         "a call on a removed handle ends the case (out of contract)"]
-    runner.run_cases(cases, cfg="plain", on_result=lambda r: judge_case(ctx, r))
+    for schema in ALL_SCHEMAS:
+        cases.append(scale_case("sc%d" % n, ctx.rng, schema, 160 if ctx.tier == "quick" else 600))
+        n += 1
+    runner.run_cases(cases, cfg="plain", on_result=lambda r: judge_scale(ctx, r) if r.case.get("_scale") else judge_case(ctx, r))
     seen = set(ctx.extra.get("cases_by_schema", {}))
     if seen != set(ALL_SCHEMAS):
         ctx.fail_harness("schema versions not covered: %s" % sorted(set(ALL_SCHEMAS) - seen))
